@@ -279,6 +279,25 @@ POOLS = [["road", "roads", "oad", "", "x"], [0, 1, 2, 10, -1], [0.5, 1, 2.5, 0],
          [None, "road", "", "roads"], [None, None, "x"]]
 
 
+def fresh_strings(x):
+    """Replace every string VALUE by an equal string that is a different object (what a patch read from JSON / YAML / Mapfile text
+    holds: equal to a literal of the program, never identical to it)."""
+    if isinstance(x, dict):
+        for k in list(x.keys()):
+            v = x[k]
+            if isinstance(v, str) and len(v) > 1:
+                x[k] = "".join(list(v))
+            else:
+                fresh_strings(v)
+    elif isinstance(x, list):
+        for i, v in enumerate(x):
+            if isinstance(v, str) and len(v) > 1:
+                x[i] = "".join(list(v))
+            else:
+                fresh_strings(v)
+    return x
+
+
 def gen_objlist(r):
     kind = r.choice(["plain", "ci", "ci", "ci-nofactory"])
     pool = r.choice(POOLS)
@@ -385,6 +404,9 @@ def run(ctx):
             p = gen_patch(r, t, kind, 0, ood)
             if r.random() < 0.01:
                 p = {"__delete__": True}
+            if i % 2:
+                fresh_strings(p)
+                res.count("patches_with_non_literal_strings")
             ow = r.random() < 0.6
             fn = mappyfile.update if r.random() < 0.5 else mappyfile.dictutils.update
             in_dom = dictmodel.update_domain(t, p) is None
